@@ -8,6 +8,9 @@ CONSTANTS
   EmptyListPassThrough = FALSE
   Mode = "copy"
   HashCache = "none"
+  LazyHash = "getter"
+  ObsKinds <- ObsActs
+  EmitLazy = FALSE
   CopyViaCtor = FALSE
   Emit = TRUE
 INVARIANT CopyEqual
